@@ -84,18 +84,18 @@ theorem fill_side {bt : List Builtin} {w : U → Nat → Option Name → Option 
       exact s1.trans ((modify_side _ _ _).trans (runKids_side hw _ kids _ _ hr))
 
 theorem addMethods_side {w : U → Nat → Option Name → Option (U × Nat)} (hw : WalkSideOK w) (v2 : Bool)
-    (u : U) (o : Nat) (ms : List GMethod) (u' : U) (o' : Nat) (hf : addMethods v2 w u o ms = some (u', o')) : Side u u' := by
+    (u : U) (o : Nat) (ms : List GMethod) {g : Nat} (u' : U) (o' : Nat) (hf : addMethods v2 w u o ms g = some (u', o')) : Side u u' := by
   unfold addMethods at hf
   split at hf
-  · cases hr : runKids w o u (methodKids v2 ms) with
+  · cases hr : runKids w o (u.modify o (fun ob => { ob with nsrc := some g, nskip := false })) (methodKids v2 ms) with
     | none => simp [hr] at hf
     | some u3 =>
       simp only [hr, Option.some.injEq, Prod.mk.injEq] at hf
       obtain ⟨rfl, rfl⟩ := hf
-      exact runKids_side hw o _ _ _ hr
+      exact (modify_side u o _).trans (runKids_side hw o _ _ _ hr)
   · simp only [Option.some.injEq, Prod.mk.injEq] at hf
     obtain ⟨rfl, rfl⟩ := hf
-    exact Side.refl u
+    exact modify_side u o _
 
 /-- **walk_leaves_declarations_and_packages_alone** -/
 theorem walk_side (bt : List Builtin) (F : Facts) (v2 : Bool) :
@@ -213,11 +213,12 @@ theorem addDecl_records {bt : List Builtin} (F : Facts) (v2 : Bool) (hwf : WellF
             | (have := hd.1; rw [hk] at this; cases this)
             | (rw [hk] at hd; cases hd)
             | exact hd.elim
-    · exact hnew.2
+    · exact hnew.2.1
   obtain ⟨h2, g2⟩ := modify_inv (o := (u.decl d n).2) (f := fun ob => { ob with kind := .declarationOf })
     (fun ob' hob' => ⟨rfl, fun _ => by rw [hob] at hob'; cases hob'; exact hk.symm, fun r hr => .inl hr⟩) h1
   have d2 : DInv F v2 ((u.decl d n).1.modify (u.decl d n).2 (fun ob => { ob with kind := .declarationOf })) [] :=
-    modify_nosrc_dinv g2 (fun ob' hob' => by rw [hob] at hob'; cases hob'; exact ⟨by simp, hsrc⟩) d1
+    modify_nosrc_dinv g2 (fun ob' hob' => by rw [hob] at hob'; cases hob'; exact ⟨by simp, hsrc⟩)
+      (fun _ => ⟨rfl, rfl, rfl, fun hh => by cases hh⟩) d1
   cases hw : walk bt F v2 fuel ((u.decl d n).1.modify (u.decl d n).2 (fun ob => { ob with kind := .declarationOf })) ty none with
   | none => simp [hw] at hf
   | some p =>
